@@ -1,7 +1,7 @@
 """C06 - Waiters are served by priority, then by waiting time; priority changes reorder."""
 import re
 
-from ..astutil import kids, strip, walk, callee_ref, render, loc
+from ..astutil import kids, strip, walk, callee_ref, render, loc, int_value
 from ..frontend import AnalysisBroken
 from ..report import Report
 from ..vals import FuncCtx, is_assert_stmt, is_logger_call
@@ -347,92 +347,228 @@ def rules(rep, m):
     else:
         r5.ok()
         # the recorded list and how it is ordered
-        finals = [(l, r_, n_) for l, r_, k, n_ in inv.stores(cs) if k == "=" and r_ is not None
-                  and strip(l, casts=True)["kind"] == "ArraySubscriptExpr" and any(z is n_ for z in walk(scan))
-                  and cx.canon(r_) in (entry, "*&" + entry)]
+        # where a satisfied entry is finally stored: through a subscript (cursor = index variable) or through a walking
+        # pointer (cursor = that pointer)
+        finals = []
+        for l, r_, k, n_ in inv.stores(cs):
+            lt = strip(l, casts=True)
+            if k == "=" and r_ is not None and any(z is n_ for z in walk(scan)) and cx.canon(r_) in (entry, "*&" + entry) and \
+                    (lt["kind"] == "ArraySubscriptExpr" or (lt["kind"] == "UnaryOperator" and lt.get("opcode") == "*")):
+                finals.append((lt, r_, n_))
         if len(finals) != 1:
             raise AnalysisBroken("R-C06-5: cannot find where cmb_condition_signal records a satisfied entry")
-        fl = strip(finals[0][0], casts=True)
-        L = render(kids(fl)[0])
-        jx = render(kids(fl)[1])
-        whiles = [w for w in walk(scan) if w["kind"] == "WhileStmt"]
+        fl = finals[0][0]
+        root = inv.storage_root(cx, cs, fl)
+        if fl["kind"] == "ArraySubscriptExpr":
+            cur_node = strip(kids(fl)[1], casts=True)
+        else:
+            cur_node = strip(kids(fl)[0], casts=True)
+        if cur_node["kind"] != "DeclRefExpr" or root is None:
+            raise AnalysisBroken("R-C06-5: the insertion position %s is not a plain cursor variable" % render(fl))
+        cur = cur_node["ref"]["name"]
+        cur_id = cur_node["ref"]["id"]
+        is_ptr = fl["kind"] != "ArraySubscriptExpr"
+        L = root
+
+        def rel(node, depth=0):
+            """offset of an element designator relative to the cursor: A[cur-1] / &A[cur-1] / *(cur-1) / prev -> -1"""
+            n_ = strip(node, casts=True)
+            if depth > 6:
+                return None
+            if n_["kind"] == "UnaryOperator" and n_.get("opcode") in ("&", "*"):
+                return rel(kids(n_)[0], depth + 1)
+            if n_["kind"] == "ArraySubscriptExpr":
+                if is_ptr or inv.storage_root(cx, cs, kids(n_)[0]) != root:
+                    return None
+                return rel(kids(n_)[1], depth + 1)
+            if n_["kind"] == "DeclRefExpr":
+                if n_["ref"]["id"] == cur_id:
+                    return 0
+                d_ = cx.single_def(n_["ref"]["id"])
+                return rel(d_, depth + 1) if d_ is not None else None
+            if n_["kind"] == "BinaryOperator" and n_.get("opcode") in ("+", "-"):
+                a_ = rel(kids(n_)[0], depth + 1)
+                c_ = int_value(strip(kids(n_)[1], casts=True))
+                if a_ is None or c_ is None:
+                    return None
+                return a_ + (c_ if n_["opcode"] == "+" else -c_)
+            return None
+
+        inner_loops = [w for w in walk(scan) if w["kind"] in ("WhileStmt", "ForStmt") and w is not scan]
         sorts = [y for y in walk(cs.body) if y["kind"] == "CallExpr" and callee_ref(y) in ("qsort",)]
-        if not whiles and not sorts:
+        cntv = None
+        if not inner_loops and not sorts:
             rep.finding(r5, cs.name, "wake:array-order", "satisfied entries are appended to %s in heap-array order and "
                         "woken in that order; the array is only partially ordered" % L, where=m.rel(loc(finals[0][2])))
             r5.fail()
-        elif len(whiles) == 1 and not sorts:
-            w = whiles[0]
-            cond = strip(kids(w)[0])
+        elif len(inner_loops) == 1 and not sorts:
+            w = inner_loops[0]
+            wk = kids(w)
+            wcond = wk[0] if w["kind"] == "WhileStmt" else wk[2]
+            wbody = wk[-1]
+            winc = None if w["kind"] == "WhileStmt" else wk[3]
+            # exit conditions: conjuncts of the loop condition plus negated `if (G) break;` guards that follow only declarations
+            conj = []
+
+            def split_and(c_):
+                c0 = strip(c_)
+                if c0["kind"] == "BinaryOperator" and c0.get("opcode") == "&&":
+                    split_and(kids(c0)[0])
+                    split_and(kids(c0)[1])
+                elif c0["kind"] != "Null":
+                    conj.append((c0, True))
+            if wcond is not None:
+                split_and(wcond)
+            body_st = kids(wbody) if wbody["kind"] == "CompoundStmt" else [wbody]
+            rest = []
+            lead = True
+            for st_ in body_st:
+                if lead and st_["kind"] == "DeclStmt":
+                    rest.append(st_)
+                    continue
+                if lead and st_["kind"] == "IfStmt" and len(kids(st_)) == 2 and any(
+                        y["kind"] == "BreakStmt" for y in walk(kids(st_)[1])) and not any(
+                        y["kind"] in ("BinaryOperator",) and y.get("opcode") == "=" for y in walk(kids(st_)[1])):
+                    conj.append((strip(kids(st_)[0]), False))          # continue while NOT G
+                    continue
+                lead = False
+                rest.append(st_)
             good = False
             why = "unrecognised"
-            if cond["kind"] == "BinaryOperator" and cond.get("opcode") == "&&":
-                lo, cmpc = strip(kids(cond)[0]), strip(kids(cond)[1])
-                neg = False
-                if cmpc["kind"] == "UnaryOperator" and cmpc.get("opcode") == "!":
-                    neg, cmpc = True, strip(kids(cmpc)[0])
-                lo_txt = re.sub(r"[\s()]", "", re.sub(r"(?<=\d)[uU]\b", "", render(lo)))
-                mlo = re.fullmatch(r"%s(>|>=|!=)(\d+)" % re.escape(jx), lo_txt)
-                lo_floor = None
-                if mlo:
-                    lo_floor = int(mlo.group(2)) + (0 if mlo.group(1) in (">", "!=") else -1)
-                if cmpc["kind"] == "CallExpr" and lo_floor is not None and lo_floor >= 1:
-                    why = ("the insertion stops at index %d: an entry recorded later can never be placed before the first %d "
-                           "recorded one(s), which are in heap-array order" % (lo_floor, lo_floor))
-                    good = False
-                elif cmpc["kind"] == "CallExpr" and lo_floor == 0:
-                    fn = cx.canon(kids(cmpc)[0]).lstrip("*(").rstrip(")")
-                    own = fn in (P + "heap_compare",) or fn == (cmpf.name if cmpf else None)
-                    a = [cx.canon(z) for z in kids(cmpc)[1:]]
-                    araw = [re.sub(r"[\s()]", "", render(cx.resolve(z))) for z in kids(cmpc)[1:]]
-                    prev = "&%s[%s-1]" % (L, jx)
-                    prevu = "&%s[%s-1u]" % (L, jx)
-                    isnew = [x_ in ("&" + entry,) for x_ in a]
-                    isprev = [x_ in (prev, prevu) for x_ in araw]
-                    body = [render(z).replace(" ", "") for z in (kids(kids(w)[1]) if kids(w)[1]["kind"] == "CompoundStmt" else [kids(w)[1]])]
-                    shift = any(re.sub(r"[()]", "", b_) in ("%s[%s]=%s[%s-1]" % (L, jx, L, jx), "%s[%s]=%s[%s-1u]" % (L, jx, L, jx)) for b_ in body) \
-                        and any(b_ in (jx + "--", "--" + jx) for b_ in body) and len(body) == 2
-                    r5.instance("insertion into %s by %s(%s), shift=%s" % (L, fn, ", ".join(araw), shift))
-                    if not own:
-                        why = "the list is ordered by '%s', not by the waiting list's own comparator" % fn
-                    elif not shift:
-                        why = "the shifting loop is not the insertion-sort step"
-                    elif isnew == [True, False] and isprev == [False, True]:
-                        good = not neg
-                        why = "the list is kept in the reverse of the queue order"
-                    elif isnew == [False, True] and isprev == [True, False]:
-                        good = neg
-                        why = "the list is kept in the reverse of the queue order"
-            # the insertion index starts at the old count
-            jdecl = [x for x in walk(scan) if x["kind"] == "VarDecl" and x.get("name") == jx]
-            cntv = None
-            if jdecl and kids(jdecl[0]):
-                mm = re.match(r"\(?(\w+)\+\+\)?$", render(kids(jdecl[0])[0]).replace(" ", ""))
-                cntv = mm.group(1) if mm else None
+            lo_floor = None
+            cmp_seen = None
+            for c0, positive in conj:
+                neg = not positive
+                c1 = c0
+                while c1["kind"] == "UnaryOperator" and c1.get("opcode") == "!":
+                    neg = not neg
+                    c1 = strip(kids(c1)[0])
+                if c1["kind"] == "CallExpr":
+                    cmp_seen = (c1, neg)
+                    continue
+                if c1["kind"] == "BinaryOperator" and c1.get("opcode") in (">", ">=", "!=") and not neg:
+                    a_, b_ = strip(kids(c1)[0], casts=True), strip(kids(c1)[1], casts=True)
+                    if a_["kind"] == "DeclRefExpr" and a_["ref"]["id"] == cur_id:
+                        if not is_ptr and int_value(b_) is not None:
+                            lo_floor = int_value(b_) + (0 if c1["opcode"] in (">", "!=") else -1)
+                        elif is_ptr and inv.storage_root(cx, cs, b_) == root:
+                            # pointer cursor compared with the start of the list (possibly plus a constant)
+                            bb = cx.resolve(b_)
+                            off = 0
+                            if bb["kind"] == "BinaryOperator" and bb.get("opcode") == "+" and int_value(strip(kids(bb)[1], casts=True)) is not None:
+                                off = int_value(strip(kids(bb)[1], casts=True))
+                            if bb["kind"] == "UnaryOperator" and bb.get("opcode") == "&":
+                                sub = strip(kids(bb)[0], casts=True)
+                                if sub["kind"] == "ArraySubscriptExpr" and int_value(strip(kids(sub)[1], casts=True)) is not None:
+                                    off = int_value(strip(kids(sub)[1], casts=True))
+                            lo_floor = off + (0 if c1["opcode"] in (">", "!=") else -1)
+            if cmp_seen is not None and lo_floor is not None and lo_floor >= 1:
+                why = ("the insertion stops at position %d: an entry recorded later can never be placed before the first %d "
+                       "recorded one(s), which are in heap-array order" % (lo_floor, lo_floor))
+            elif cmp_seen is not None and lo_floor == 0:
+                cmpc, neg = cmp_seen
+                fn = cx.canon(kids(cmpc)[0]).lstrip("*(").rstrip(")")
+                own = fn in (P + "heap_compare",) or fn == (cmpf.name if cmpf else None)
+                a = [cx.canon(z) for z in kids(cmpc)[1:]]
+                rels = [rel(z) for z in kids(cmpc)[1:]]
+                isnew = [x_ in ("&" + entry,) for x_ in a]
+                isprev = [r_ == -1 for r_ in rels]
+                # the shift: element(0) = element(-1), and the cursor steps down by one, once per round
+                shifts = [(rel(kids(z)[0]), rel(kids(z)[1])) for z in rest if z["kind"] == "BinaryOperator" and z.get("opcode") == "="
+                          and strip(kids(z)[0], casts=True)["kind"] in ("ArraySubscriptExpr", "UnaryOperator")]
+                steps = []
+                for z in rest + ([winc] if winc is not None and winc["kind"] != "Null" else []):
+                    z0 = strip(z, casts=True)
+                    if z0["kind"] == "UnaryOperator" and z0.get("opcode") in ("--", "++") and \
+                            strip(kids(z0)[0], casts=True).get("ref", {}).get("id") == cur_id:
+                        steps.append(-1 if z0["opcode"] == "--" else 1)
+                    elif z0["kind"] == "CompoundAssignOperator" and strip(kids(z0)[0], casts=True).get("ref", {}).get("id") == cur_id:
+                        v_ = int_value(strip(kids(z0)[1], casts=True))
+                        steps.append(None if v_ is None else (-v_ if z0["opcode"] == "-=" else v_))
+                shift = shifts == [(0, -1)] and steps == [-1]
+                r5.instance("insertion into %s by %s(%s), cursor %s, shift=%s" % (L, fn, ", ".join(a), cur, shift))
+                if not own:
+                    why = "the list is ordered by '%s', not by the waiting list's own comparator" % fn
+                elif not shift:
+                    why = "the shifting loop is not the insertion-sort step (moves %s, cursor steps %s)" % (shifts, steps)
+                elif isnew == [True, False] and isprev == [False, True]:
+                    good = not neg
+                    why = "the list is kept in the reverse of the queue order"
+                elif isnew == [False, True] and isprev == [True, False]:
+                    good = neg
+                    why = "the list is kept in the reverse of the queue order"
+            # the cursor starts behind the last recorded entry: index = count (then raised), or pointer = &list[count]
+            start = None
+            for x in walk(scan):
+                if x["kind"] == "VarDecl" and x.get("id") == cur_id and kids(x):
+                    start = kids(x)[0]
+            for l, r_, k, n_ in inv.stores(cs):
+                if strip(l, casts=True).get("ref", {}).get("id") == cur_id and k == "=" and r_ is not None and \
+                        any(z is n_ for z in walk(scan)) and not any(z is n_ for z in walk(w)):
+                    start = r_
+            if start is not None:
+                s0 = cx.resolve(start)
+                txt = render(s0).replace(" ", "")
+                mm = re.match(r"\(?(\w+)\+\+\)?$", txt)
+                if mm and not is_ptr:
+                    cntv = mm.group(1)
+                elif not is_ptr and s0["kind"] == "DeclRefExpr":
+                    cntv = s0["ref"]["name"]
+                elif is_ptr:
+                    if s0["kind"] == "UnaryOperator" and s0.get("opcode") == "&":
+                        sub = strip(kids(s0)[0], casts=True)
+                        if sub["kind"] == "ArraySubscriptExpr" and inv.storage_root(cx, cs, kids(sub)[0]) == root:
+                            i_ = cx.resolve(kids(sub)[1])
+                            cntv = i_["ref"]["name"] if i_["kind"] == "DeclRefExpr" else None
+                    elif s0["kind"] == "BinaryOperator" and s0.get("opcode") == "+" and inv.storage_root(cx, cs, kids(s0)[0]) == root:
+                        i_ = cx.resolve(kids(s0)[1])
+                        cntv = i_["ref"]["name"] if i_["kind"] == "DeclRefExpr" else None
+            # the counter is raised exactly once per recorded entry in the true branch
+            if cntv is not None:
+                raised = [n_ for l, r_, k, n_ in inv.stores(cs) if strip(l, casts=True).get("ref", {}).get("name") == cntv
+                          and any(z is n_ for z in walk(scan)) and k in ("++", "+=")]
+                # through the inlined helper the counter may be a copy: follow single-definition chains
+                if not raised:
+                    cd = [x for x in walk(cs.body) if x["kind"] == "VarDecl" and x.get("name") == cntv and kids(x)]
+                    if cd:
+                        src = cx.resolve(kids(cd[0])[0])
+                        if src["kind"] == "DeclRefExpr":
+                            cntv = src["ref"]["name"]
+                            raised = [n_ for l, r_, k, n_ in inv.stores(cs) if strip(l, casts=True).get("ref", {}).get("name") == cntv
+                                      and any(z is n_ for z in walk(scan)) and k in ("++", "+=")]
+                if len(raised) != 1:
+                    cntv = None
             if good and cntv is None:
                 good, why = False, "the insertion does not start behind the last recorded entry"
             if why == "unrecognised":
-                raise AnalysisBroken("R-C06-5: the ordering construct in cmb_condition_signal is not recognised (%s)" % render(cond))
+                raise AnalysisBroken("R-C06-5: the ordering construct in cmb_condition_signal is not recognised (%s)" % render(wcond))
             if not good:
                 rep.finding(r5, cs.name, "wake:order", "satisfied entries are woken in the order of %s, and %s" % (L, why),
                             where=m.rel(loc(w)))
                 r5.fail()
             else:
                 r5.ok()
-            # second pass ascending over the list
+            # second pass: from the first to the last recorded entry
             okasc = True
             for y in scheds:
-                chain = [a_ for a_ in inv.enclosing_chain(cs, y) if a_["kind"] == "ForStmt"]
+                chain = [a_ for a_ in inv.enclosing_chain(cs, y) if a_["kind"] in ("ForStmt", "WhileStmt")]
                 if len(chain) != 1:
                     okasc = False
                     continue
-                fk = kids(chain[0])
-                v2 = [x for x in walk(fk[0]) if x["kind"] == "VarDecl"]
-                asc = v2 and kids(v2[0]) and cx.canon(kids(v2[0])[0]) == "0" and \
-                    render(fk[2]).replace(" ", "") == "(%s<%s)" % (v2[0]["name"], cntv) and \
-                    render(fk[3]).replace(" ", "") in (v2[0]["name"] + "++", "++" + v2[0]["name"])
-                subj = re.sub(r"[\s()]", "", render(cx.resolve(kids(y)[2])))
-                if not asc or subj != "%s[%s].item[0]" % (L, v2[0]["name"] if v2 else "?"):
+                iv_, g_ = inv.induction_vars(cx, cs, chain[0])
+                tc = inv.trip_count(iv_, g_)
+                walker = g_[0] if g_ else None
+                if tc is None and g_ is not None:
+                    e_, d_ = iv_[g_[0]]
+                    mm = re.fullmatch(r"\(%s \+ (\w+)\)" % re.escape(e_), g_[2])
+                    if d_ == 1 and g_[1] in ("!=", "<") and mm:
+                        tc = mm.group(1)
+                asc = walker is not None and iv_[walker][1] == 1 and tc == cntv
+                subj = cx.resolve(kids(y)[2])
+                if not asc or inv.storage_root(cx, cs, subj) != root or not re.search(r"item\[0\]$", render(subj)):
+                    okasc = False
+                # the subject is the element the walker is at
+                if asc and not any(z["kind"] == "DeclRefExpr" and z["ref"]["name"] == walker for z in walk(subj)):
                     okasc = False
             r5.instance("second pass ascending over %s[0..%s): %s" % (L, cntv, okasc))
             if not okasc:
